@@ -257,6 +257,11 @@ C04_Update(B, T, v, n, out) ==
   \cup (IF out = "ok" /\ a \in {"Idle", "ChargeQueueing"} /\ ~n.was_empty /\ ~(n.spent_pos /\ n.en_down)
            /\ ~("idle_rate_zero" \in DOMAIN n /\ n.idle_rate_zero)     \* the definition itself says idling costs nothing
         THEN {V("C04", "idling_expends", k, v)} ELSE {})
+     \* a step spent waiting is idling whether or not the simulator carried the vehicle's update out: an update that is
+     \* dropped (a vetoed default transition, an error) leaves a vehicle that idled for the whole step without any draw
+  \cup (IF out # "ok" /\ B.veh[v].act \in {"Idle", "ChargeQueueing"} /\ a = B.veh[v].act /\ ~n.was_empty /\ ~n.spent_pos
+           /\ ~("idle_rate_zero" \in DOMAIN n /\ n.idle_rate_zero)
+        THEN {V("C04", "idling_expends", "update_dropped/" \o k, v)} ELSE {})
      \* "a vehicle that lacks the energy for its next movement stops and goes out of service instead of moving on":
      \* the update in which the tank / battery runs dry does not change the position
   \cup (IF B.veh[v].act \in Moving /\ ~B.veh[v].empty /\ T.veh[v].empty /\ T.veh[v].pos # B.veh[v].pos
